@@ -190,10 +190,12 @@ var All = []*Prop{
 	},
 	{
 		ID:    "C09",
-		Rules: []*core.Rule{rules.CtxFields, rules.TryPair},
+		Rules: []*core.Rule{rules.CtxFields, rules.TryPair, rules.GenResume, rules.MarkerTest},
 		Explanation: "Faithful suspension requires that suspend() and resume() move exactly the per-activation state. R-CTXFIELDS derives from the declarations of vm, context, execCtx and tryFrame the set of registers and auxiliary stacks and checks that suspend saves and cuts each stack that resume appends back, that execCtx has a slot for each, and that every positional tryFrame field recorded by pushTryFrame is made relative by suspend and absolute by resume (or recomputed). " +
-			"R-TRYPAIR: the generator/async entry points (generator.next/nextThrow, generatorObject.init/_return, asyncRunner.start) release their marker frame panic-safely, so the runtime and the generator protocol remain usable after an interrupt/stack overflow inside a body.",
-		Technique:  "writer/reader field-set agreement derived from struct declarations; panic-safe acquire/release pairing",
+			"R-TRYPAIR: the generator/async entry points (generator.next/nextThrow, generatorObject.init/_return, asyncRunner.start) release their marker frame panic-safely, so the runtime and the generator protocol remain usable after an interrupt/stack overflow inside a body. " +
+			"R-GENRESUME: next()/throw() reach the suspended body only by resuming it - enterNext() (which calls vm.resume(&g.ctx)) dominates every return of generator.next/nextThrow, and the saved stacks of execCtx are touched only by vm.suspend/vm.resume (audited read-only exception: captureAsyncStack) - so an injected exception always unwinds through the body's open iterators and finally blocks. " +
+			"R-MARKERTEST: whoever classifies a try frame as an entry marker by catchPos == tryPanicMarker also tests the in-place tag finallyRet == -2 (a generator frame whose finally runs for return() carries the same catchPos).",
+		Technique:  "writer/reader field-set agreement derived from struct declarations; panic-safe acquire/release pairing; must-pass-through (dominance) of the resume call; who-may-access on saved-context fields; sibling-test agreement",
 		DesignRef:  "DESIGN.md section 4, C09",
 		NotCovered: "the generator state machine itself (results of next/throw/return sequences), yield* delegation protocol, survival of locals and partially evaluated expressions (stack copy contents), async ordering: history-level semantics",
 	},
